@@ -8,6 +8,13 @@ PROPS = {
         ],
         "assumptions": ["numbers are opaque atoms in the model", "strings.EqualFold modelled for the words true/false/null/0 (ASCII fold plus U+017F)"],
     },
+    "C10": {
+        "corr": [("storage", {"quick": 1200, "thorough": 25000})],
+        "trusted_base": [
+            "modelled, not verified: the release body codec (encoding/json + gzip + base64; the harness compares decoded releases and round-trips generated releases), client-go fake clientset (object store and label selectors behind the Secret/ConfigMap drivers), namespaces (one namespace), createdAt/modifiedAt label values",
+        ],
+        "assumptions": ["refinement theorem proved for the Secret/ConfigMap driver model; the memory driver model is tied by correspondence (all three real drivers are compared step by step with their models and with the spec map) and by the key-parse guard/counterexample theorems"],
+    },
     "C11": {
         "corr": [("deps", {"quick": 2000, "thorough": 40000}), ("values", {"quick": 900, "thorough": 15000})],
         "trusted_base": [
